@@ -383,12 +383,59 @@ def _on_handle(h, st, rows, cols, kw, c):
     raise ValueError(st)
 
 
+def kind_of(c):
+    """which part of the statement a request exercises (one entry point each)"""
+    if c["style"] in ("SReadFields", "SSfReadFields") and c["cols"][0] != "none":
+        return "fields_kw"
+    if c["split"] or c["reduce"]:
+        return "options"
+    rs = c["rows"]
+    if rs[0] == "slice":
+        return "slice_binary" if (c["delim"] is None and c["style"] == "SGetitem") else "slice_unpacked"
+    if rs[0] == "list":
+        return "rowlist"
+    if rs[0] == "scalar":
+        return "scalar_row"
+    return "columns"
+
+
+_CASES = {}
+
+
+def all_cases(ctx, round):
+    key = (id(ctx), round)
+    if key not in _CASES:
+        _CASES.clear()
+        _CASES[key] = gen_cases(ctx, round)
+    return _CASES[key]
+
+
 class Read(Entry):
     name = "read"
     search_rounds = 1
+    kind = None
+
+    def __init__(self, kind):
+        self.kind = kind
+        self.name = kind
 
     def cases(self, ctx, round=0):
-        return gen_cases(ctx, round)
+        return [dict(c) for c in all_cases(ctx, round) if kind_of(c) == self.kind]
+
+    def classify(self, c, o, v):
+        """labels of the defects repaired by fixes/C02 (status 'fixed': nothing is suppressed)"""
+        rs, n = c["rows"], len(c["tbl"]["rows"])
+        if rs[0] == "list" and len(rs[1]) == 0:
+            return "C02.fixed_empty_row_list"
+        if (rs[0] == "list" and len(rs[1]) == 1 and rs[1][0] >= n) or (rs[0] == "scalar" and rs[1] >= n):
+            return "C02.fixed_single_row_clipped"
+        if rs[0] == "slice":
+            return "C02.fixed_slice_binary_clip" if self.kind == "slice_binary" else "C02.fixed_slice_unpacked_bounds"
+        if self.kind == "fields_kw" and c["cols"][0] == "name":
+            return "C02.fixed_fields_kw_scalar"
+        if c["reduce"]:
+            return "C02.fixed_reduce_none"
+        return None
 
     def impl(self, c):
         ent = prepare(c["tbl"], c["delim"], c["api"])
@@ -671,7 +718,8 @@ def gen_cases(ctx, round):
     return cs
 
 
-ENTRIES = [Algebra(), Read()]
+ENTRIES = [Algebra()] + [Read(k) for k in ("slice_binary", "slice_unpacked", "rowlist", "scalar_row", "columns",
+                                             "fields_kw", "options")]
 
 TRUSTED = [
     "Coq 8.16.1 kernel (coqc, vm_compute; no native_compute); every theorem of C02/Properties.v is closed under the global context",
